@@ -8,23 +8,35 @@ LEAN_PROPS = ["FcpptProofs.Props.C17"]
 HARNESS = {"src": "harness/c17.cpp"}
 TIE = ("hand-written model (FcpptModel/Model/C17.lean, one definition per comparison header) + differential correspondence "
        "against the real templates: digests over complete finite domains, refined to single operand pairs / triples")
-RULE = ("sts ty a lo hi: digest over b in [lo,hi] of all 28 strong_typedef observations (binary/unary arithmetic and bitwise, "
-        "++/--, op=, six comparisons, hash, type_iso) for operands (a,b) - exhaustive over [-128,127]^2 for int and over all pairs of "
-        "wrap-around boundary values for unsigned / unsigned long (and overflow boundary values for int / long, `ub` where the "
-        "plain operator is undefined). rels type maxlen a: digest over every value b of the type with components in {0,1,2} of "
-        "== != < > <= >= (as offered), hash agreement and type-specific extras - run for every a, i.e. all ordered pairs; "
+RULE = ("sts ty a lo hi: digest over b in [lo,hi] of all strong_typedef observations (binary/unary arithmetic and bitwise, "
+        "++/--, op=, six comparisons, hash, type_iso; each also compared with the built-in operator in C++ itself) for operands (a,b) - "
+        "exhaustive over [-128,127]^2 for int, over all pairs of signed char / unsigned char (integral promotion: op=, ++/--, comparisons), "
+        "over all pairs of wrap-around boundary values for unsigned / unsigned long / unsigned short (overflow boundary values for "
+        "int / long / short, `ub` where the built-in operator is undefined). stselfs: the SAME object on both sides of every binary / "
+        "assigning operator (every 8- and 16-bit value, boundaries of the wider types); stmems: members (non-const get, no_init, copy, "
+        "move), strong_typedef_map/_apply/_construct_cast, << >>. rels type maxlen a: digest over every value b of the type with "
+        "components in {0,1,2} of == != < > <= >= (as offered), hash agreement (fcppt hash object, std::hash, fcppt::hash) and "
+        "type-specific extras - run for every a, i.e. all ordered pairs; relsr: the same with the two values built along every pair "
+        "of construction routes (constructor, assignment over another value, element-wise writes, insert+erase, reserve/resize/pop, "
+        "inside a buffer pre-filled with a byte pattern); selfs: the same object on both sides; relb: all pairs of 19 (15) boundary "
+        "values of int (short) in one component; tree-shapes: all pairs of 122 trees (every shape up to 5 nodes, one node different); "
+        "sequences: one difference at every position / proper prefixes for 4..9 and 15..64 elements; "
         "tri: all triples (a,b,c) checked for symmetry/transitivity of ==, transitivity of < and of incomparability, and "
-        "compatibility (every a, both tiers; trees up to 3 nodes, raw_vectors up to 3 / 4 elements). "
+        "compatibility (every a, both tiers; trees up to 3 nodes, raw_vectors up to 3 / 4 elements; values built along alternating routes). "
         "An op counts as non-trivial unless it is malformed on purpose (bad-op); distinct = distinct op lines; weight = number of "
         "operand pairs / triples the line stands for.")
 ASSUMPTIONS = [
-    "C integer types int/unsigned/long/unsigned long are 32/32/64/64-bit two's complement (LP64); no promotion below int occurs",
+    "C integer types signed/unsigned char, short, int, long are 8/16/32/64-bit two's complement (LP64); operands narrower than int are "
+    "promoted to int; conversion to a narrower / signed type is modulo 2^n (C++20)",
     "std::equal, std::lexicographical_compare, std::pair <, std::variant == and <, std::tuple ==, std::array ==, std::list == behave "
-    "as the C++20 standard specifies (transcribed as stdEqual3, lexCompare, pairLt, Var.eq/lt, equalV, Tree.eqList)",
+    "as the C++20 standard specifies (transcribed as stdEqual3, lexCompare, pairLt, Var.eq/lt = SumV.eq/lt, equalV = Pair.eq, Tree.eqList)",
     "hash_combine and std::hash of the components are uninterpreted (the hash theorems hold for any)",
-    "the component type is int with the built-in == and < (LawfulEq, StrictTotal hold); theorems are stated for any component type with these laws",
-    "addresses of the elements of one array are ordered like their indices (reference / shared_ptr values are built on one array)",
+    "the component types are int / long / short with the built-in == and < (LawfulEq, StrictTotal hold) and - for boxes - the built-in "
+    "subtraction without overflow (SubCancel); theorems are stated for any component types with these laws",
+    "addresses of the elements of one array are ordered like their indices and the null pointer is below all of them "
+    "(reference / shared_ptr / iterator::range values are built on one array)",
     "std::variant never becomes valueless here (all alternatives are nothrow-movable scalars)",
+    "box values: pos + size is representable (the class stores min and max = pos + size)",
 ]
 TRUSTED = ["harness/c17.cpp and the digest/line protocol (vh.hpp, Proto.lean)",
            "g++ 12 + ASan/UBSan as witness for memory safety of the instantiations (e.g. std::equal reading past the shorter range)",
@@ -543,7 +555,10 @@ MANIFEST = {
                    "and no comparison reads out of bounds (grid, raw_vector under their size invariant); strong_typedef operators are "
                    "unwrap-operate-wrap of the C operator, whose value is the exact integer result (signed, when representable) or the result "
                    "modulo 2^bits (unsigned). The model is tied to the code by a differential correspondence that is exhaustive over "
-                   "[-128,127]^2 for int, over all unsigned boundary pairs, and over all pairs and triples of composite values with components in {0,1,2}."),
+                   "[-128,127]^2 for int, over all pairs of signed / unsigned char (integral promotion), over all unsigned boundary pairs, and over all "
+                   "pairs and triples of composite values with components in {0,1,2} - for every pair of construction routes of the two values "
+                   "(representation independence: stale storage, padding, inactive alternatives, spare capacity), with the same object on both "
+                   "sides, and with boundary values of the component type."),
     "level_note": ("Trusted: Lean kernel + propext/Classical.choice/Quot.sound; fidelity of the hand-written model outside the exercised inputs; "
                    "the standard-library algorithms as transcribed; harness and digest protocol; hashes uninterpreted. No sorry/axiom/native_decide."),
     "technique": "Lean 4 proof over hand-written executable model + exhaustive differential correspondence (ASan/UBSan harness)",
